@@ -5,6 +5,21 @@ C19 helper development, part 2: the serialize -> deserialize round trip preserve
 import IrVerif.Lemmas.Device
 namespace IrVerif.Device
 
+/-- position-wise relation between two lists (core Lean has no `Forall₂`) -/
+inductive All2 {α β : Type} (R : α → β → Prop) : List α → List β → Prop
+  | nil : All2 R [] []
+  | cons {a : α} {b : β} {l1 : List α} {l2 : List β} : R a b → All2 R l1 l2 → All2 R (a :: l1) (b :: l2)
+
+theorem All2.map_right {α β : Type} {R : α → β → Prop} (f : α → β) : ∀ (l : List α),
+    (∀ a ∈ l, R a (f a)) → All2 R l (l.map f)
+  | [], _ => All2.nil
+  | a :: l, h => All2.cons (h a (by simp)) (All2.map_right f l (fun x hx => h x (by simp [hx])))
+
+theorem All2.imp {α β : Type} {R S : α → β → Prop} (h : ∀ a b, R a b → S a b) :
+    ∀ {l1 : List α} {l2 : List β}, All2 R l1 l2 → All2 S l1 l2
+  | _, _, All2.nil => All2.nil
+  | _, _, All2.cons hab t => All2.cons (h _ _ hab) (All2.imp h t)
+
 /-! ### scopes -/
 
 theorem slookup_mem {sc : Scope} {a : String} {b : VId} (h : slookup sc a = some b) : (a, b) ∈ sc := by
@@ -41,60 +56,87 @@ theorem sc_inj {sc : Scope} (hinj : (sc.map (·.2)).Nodup) {a1 a2 : String} {b :
   have := inj_of_nodup_map hinj h1 h2 rfl
   exact (Prod.mk.inj this).1
 
-/-- only values were appended -/
+/-- the world only grew: values and nodes were appended, configuration records and models kept -/
 structure VExt (a b : World) : Prop where
   values : ∃ extra, b.values = a.values ++ extra
   cfgs : b.cfgs = a.cfgs
-  nodes : b.nodes = a.nodes
+  nodes : ∃ extra, b.nodes = a.nodes ++ extra
   models : b.models = a.models
 
-theorem VExt.refl (a : World) : VExt a a := ⟨⟨[], by simp⟩, rfl, rfl, rfl⟩
+theorem VExt.refl (a : World) : VExt a a := ⟨⟨[], by simp⟩, rfl, ⟨[], by simp⟩, rfl⟩
 
 theorem VExt.trans {a b c : World} (h1 : VExt a b) (h2 : VExt b c) : VExt a c := by
   obtain ⟨e1, he1⟩ := h1.values
   obtain ⟨e2, he2⟩ := h2.values
-  exact ⟨⟨e1 ++ e2, by rw [he2, he1, List.append_assoc]⟩, h2.cfgs.trans h1.cfgs, h2.nodes.trans h1.nodes,
-    h2.models.trans h1.models⟩
+  obtain ⟨n1, hn1⟩ := h1.nodes
+  obtain ⟨n2, hn2⟩ := h2.nodes
+  exact ⟨⟨e1 ++ e2, by rw [he2, he1, List.append_assoc]⟩, h2.cfgs.trans h1.cfgs,
+    ⟨n1 ++ n2, by rw [hn2, hn1, List.append_assoc]⟩, h2.models.trans h1.models⟩
 
 theorem VExt.len {a b : World} (h : VExt a b) : a.values.length ≤ b.values.length := by
   obtain ⟨e, he⟩ := h.values; rw [he]; simp
 
+theorem VExt.nlen {a b : World} (h : VExt a b) : a.nodes.length ≤ b.nodes.length := by
+  obtain ⟨e, he⟩ := h.nodes; rw [he]; simp
+
 theorem VExt.value {a b : World} (h : VExt a b) {v : VId} (hv : v < a.values.length) : b.value v = a.value v := by
   obtain ⟨e, he⟩ := h.values
   simp [World.value, he, List.getD_eq_getElem?_getD, List.getElem?_append_left hv]
+
+theorem VExt.node {a b : World} (h : VExt a b) {n : NId} (hn : n < a.nodes.length) : b.node n = a.node n := by
+  obtain ⟨e, he⟩ := h.nodes
+  simp [World.node, he, List.getD_eq_getElem?_getD, List.getElem?_append_left hn]
 
 theorem VExt.toExt {a b : World} (h : VExt a b) : Ext a b := by
   obtain ⟨e, he⟩ := h.values
   exact Ext.of_append e he h.cfgs
 
 theorem VExt.push (a : World) (x : ValueS) : VExt a { a with values := a.values ++ [x] } :=
-  ⟨⟨[x], rfl⟩, rfl, rfl, rfl⟩
+  ⟨⟨[x], rfl⟩, rfl, ⟨[], by simp⟩, rfl⟩
+
+theorem VExt.of_eq {a b : World} (hv : b.values = a.values) (hc : b.cfgs = a.cfgs) (hn : b.nodes = a.nodes)
+    (hm : b.models = a.models) : VExt a b :=
+  ⟨⟨[], by simp [hv]⟩, hc, ⟨[], by simp [hn]⟩, hm⟩
 
 theorem value_push (a : World) (x : ValueS) : World.value { a with values := a.values ++ [x] } a.values.length = x := by
   simp [World.value, List.getD_eq_getElem?_getD]
 
+theorem slookup_append (l1 l2 : Scope) (a : String) :
+    slookup (l1 ++ l2) a = (slookup l1 a).or (slookup l2 a) := by
+  unfold slookup
+  rw [List.find?_append]
+  cases List.find? (fun p => decide (p.1 = a)) l1 <;> simp
+
+theorem slookup_append_left {l1 l2 : Scope} {a : String} {b : VId} (h : slookup l1 a = some b) :
+    slookup (l1 ++ l2) a = some b := by
+  rw [slookup_append, h]; rfl
+
 /-- what holds of a scope of value names during deserialization (relative to the source world `w`
-    and the values `vals` the source graph mentions) -/
+    and the values `vals` the source graphs mention): ids exist and are pairwise different, the value
+    behind an entry carries the entry's name, and its shape is that of the source value of that name
+    (or unknown) -/
 structure ScopeOK (w : World) (vals : List VId) (wd : World) (sc : Scope) : Prop where
   lt : ∀ p ∈ sc, p.2 < wd.values.length
   inj : (sc.map (·.2)).Nodup
+  name : ∀ p ∈ sc, (wd.value p.2).name = p.1
   shape : ∀ p ∈ sc, p.1 ≠ "" → ∀ v ∈ vals, (w.value v).name = p.1 →
     (wd.value p.2).shape = (w.value v).shape ∨ (wd.value p.2).shape = none
 
 theorem ScopeOK.vext {w : World} {vals : List VId} {wd wd' : World} {sc : Scope}
     (h : ScopeOK w vals wd sc) (he : VExt wd wd') : ScopeOK w vals wd' sc := by
-  refine ⟨fun p hp => Nat.lt_of_lt_of_le (h.lt p hp) he.len, h.inj, ?_⟩
-  intro p hp hne v hv hname
-  rw [he.value (h.lt p hp)]
-  exact h.shape p hp hne v hv hname
+  refine ⟨fun p hp => Nat.lt_of_lt_of_le (h.lt p hp) he.len, h.inj, ?_, ?_⟩
+  · intro p hp; rw [he.value (h.lt p hp)]; exact h.name p hp
+  · intro p hp hne v hv hname
+    rw [he.value (h.lt p hp)]
+    exact h.shape p hp hne v hv hname
 
-/-- entering a fresh value under a name that is not yet in the scope -/
+/-- entering a fresh value under a name -/
 theorem ScopeOK.push {w : World} {vals : List VId} {wd : World} {sc : Scope} (h : ScopeOK w vals wd sc)
-    (name : String) (x : ValueS)
+    (name : String) (x : ValueS) (hxn : x.name = name)
     (hx : name ≠ "" → ∀ v ∈ vals, (w.value v).name = name → x.shape = (w.value v).shape ∨ x.shape = none) :
     ScopeOK w vals { wd with values := wd.values ++ [x] } ((name, wd.values.length) :: sc) := by
   have he := VExt.push wd x
-  refine ⟨?_, ?_, ?_⟩
+  refine ⟨?_, ?_, ?_, ?_⟩
   · intro p hp
     simp only [List.mem_cons] at hp
     rcases hp with hp | hp
@@ -106,6 +148,11 @@ theorem ScopeOK.push {w : World} {vals : List VId} {wd : World} {sc : Scope} (h 
     have := h.lt p hp
     rw [e] at this
     exact Nat.lt_irrefl _ this
+  · intro p hp
+    simp only [List.mem_cons] at hp
+    rcases hp with hp | hp
+    · subst hp; simp only; rw [value_push]; exact hxn
+    · rw [he.value (h.lt p hp)]; exact h.name p hp
   · intro p hp hne v hv hname
     simp only [List.mem_cons] at hp
     rcases hp with hp | hp
@@ -116,31 +163,48 @@ theorem ScopeOK.push {w : World} {vals : List VId} {wd : World} {sc : Scope} (h 
     · rw [he.value (h.lt p hp)]
       exact h.shape p hp hne v hv hname
 
+theorem ScopeOK.of_values_eq {w : World} {vals : List VId} {wd wd' : World} {sc : Scope}
+    (h : ScopeOK w vals wd sc) (hv : wd'.values = wd.values) : ScopeOK w vals wd' sc := by
+  have hval : ∀ x, wd'.value x = wd.value x := by intro x; simp [World.value, hv]
+  refine ⟨fun p hp => by rw [hv]; exact h.lt p hp, h.inj, ?_, ?_⟩
+  · intro p hp; rw [hval]; exact h.name p hp
+  · intro p hp hne v hvm hname
+    rw [hval]; exact h.shape p hp hne v hvm hname
+
+
 /-! ### node inputs by name -/
 
-structure InputsSpec (w : World) (vals : List VId) (wd : World) (sc : Scope) (ins : List (Option VId))
+structure InputsSpec (w : World) (vals : List VId) (wd : World) (cur outer : Scope) (ins : List (Option VId))
     (r : World × Scope × List (Option VId)) : Prop where
   vext : VExt wd r.1
-  ok : ScopeOK w vals r.1 r.2.1
-  mono : ∀ x b, slookup sc x = some b → slookup r.2.1 x = some b
+  nodes : r.1.nodes = wd.nodes
+  ok : ScopeOK w vals r.1 (r.2.1 ++ outer)
+  mono : ∀ x b, slookup (cur ++ outer) x = some b → slookup (r.2.1 ++ outer) x = some b
+  monoCur : ∀ x b, slookup cur x = some b → slookup r.2.1 x = some b
   found : ∀ v, some v ∈ ins → (w.value v).name ≠ "" →
-    ∃ b, slookup r.2.1 (w.value v).name = some b ∧ some b ∈ r.2.2
+    ∃ b, slookup (r.2.1 ++ outer) (w.value v).name = some b ∧ some b ∈ r.2.2
   lt : ∀ b, some b ∈ r.2.2 → b < r.1.values.length
+  /-- every new input carries the name of the source input at its position -/
+  names : All2 (fun (o o' : Option VId) => match o, o' with
+    | some v, some b => (r.1.value b).name = (w.value v).name
+    | _, _ => True) ins r.2.2
 
-theorem deserInputs_spec (w : World) (vals : List VId) : ∀ (ins : List (Option VId)) (wd : World) (sc : Scope),
-    ScopeOK w vals wd sc → InputsSpec w vals wd sc ins (deserInputs w (wd, sc) ins) := by
+theorem deserInputs_spec (w : World) (vals : List VId) (outer : Scope) :
+    ∀ (ins : List (Option VId)) (wd : World) (cur : Scope),
+    ScopeOK w vals wd (cur ++ outer) → InputsSpec w vals wd cur outer ins (deserInputs w outer (wd, cur) ins) := by
   intro ins
   induction ins with
   | nil =>
-    intro wd sc h
-    exact ⟨VExt.refl wd, h, fun _ _ hx => hx, by simp, by simp [deserInputs]⟩
+    intro wd cur h
+    exact ⟨VExt.refl wd, rfl, h, fun _ _ hx => hx, fun _ _ hx => hx, by simp, by simp [deserInputs],
+      by simp only [deserInputs]; exact All2.nil⟩
   | cons o rest ih =>
-    intro wd sc h
+    intro wd cur h
     cases o with
     | none =>
-      obtain ⟨a, b, c, d, e⟩ := ih wd sc h
+      obtain ⟨a, an, b, c, cc, d, e, f⟩ := ih wd cur h
       simp only [deserInputs]
-      refine ⟨a, b, c, ?_, ?_⟩
+      refine ⟨a, an, b, c, cc, ?_, ?_, All2.cons trivial f⟩
       · intro v hv hne
         simp only [List.mem_cons] at hv
         rcases hv with hv | hv
@@ -156,8 +220,8 @@ theorem deserInputs_spec (w : World) (vals : List VId) : ∀ (ins : List (Option
       simp only [deserInputs]
       split
       · rename_i hname
-        obtain ⟨a, b, c, d, e⟩ := ih wd sc h
-        refine ⟨a, b, c, ?_, ?_⟩
+        obtain ⟨a, an, b, c, cc, d, e, f⟩ := ih wd cur h
+        refine ⟨a, an, b, c, cc, ?_, ?_, All2.cons trivial f⟩
         · intro v hv hne
           simp only [List.mem_cons] at hv
           rcases hv with hv | hv
@@ -170,11 +234,14 @@ theorem deserInputs_spec (w : World) (vals : List VId) : ∀ (ins : List (Option
           · cases hx
           · exact e x hx
       · rename_i hname
-        cases hl : slookup sc (w.value v0).name with
+        cases hl : slookup (cur ++ outer) (w.value v0).name with
         | some v' =>
-          simp only []
-          obtain ⟨a, b, c, d, e⟩ := ih wd sc h
-          refine ⟨a, b, c, ?_, ?_⟩
+          simp only
+          obtain ⟨a, an, b, c, cc, d, e, f⟩ := ih wd cur h
+          have hnm : ((deserInputs w outer (wd, cur) rest).1.value v').name = (w.value v0).name := by
+            rw [a.value (h.lt _ (slookup_mem hl))]
+            exact h.name _ (slookup_mem hl)
+          refine ⟨a, an, b, c, cc, ?_, ?_, All2.cons hnm f⟩
           · intro v hv hne
             simp only [List.mem_cons] at hv
             rcases hv with hv | hv
@@ -188,18 +255,35 @@ theorem deserInputs_spec (w : World) (vals : List VId) : ∀ (ins : List (Option
               exact Nat.lt_of_lt_of_le (h.lt _ (slookup_mem hl)) a.len
             · exact e x hx
         | none =>
-          simp only []
-          have hpush := h.push (w.value v0).name ({ name := (w.value v0).name, shape := none } : ValueS)
+          simp only
+          have hpush := h.push (w.value v0).name ({ name := (w.value v0).name, shape := none } : ValueS) rfl
             (fun _ _ _ _ => Or.inr rfl)
-          obtain ⟨a, b, c, d, e⟩ := ih _ _ hpush
-          have hnew : slookup (((w.value v0).name, wd.values.length) :: sc) (w.value v0).name = some wd.values.length := by
-            rw [slookup_cons]; simp
-          refine ⟨(VExt.push wd _).trans a, b, ?_, ?_, ?_⟩
+          have hpush' : ScopeOK w vals { wd with values := wd.values ++ [({ name := (w.value v0).name, shape := none } : ValueS)] }
+              ((((w.value v0).name, wd.values.length) :: cur) ++ outer) := hpush
+          obtain ⟨a, an, b, c, cc, d, e, f⟩ := ih _ _ hpush'
+          have hnew : slookup ((((w.value v0).name, wd.values.length) :: cur) ++ outer) (w.value v0).name = some wd.values.length := by
+            rw [List.cons_append, slookup_cons]; simp
+          have hlcur : slookup cur (w.value v0).name = none := by
+            rw [slookup_append] at hl
+            cases hx : slookup cur (w.value v0).name with
+            | none => rfl
+            | some y => simp [hx] at hl
+          have hlt0 : wd.values.length < (wd.values ++ [({ name := (w.value v0).name, shape := none } : ValueS)]).length := by simp
+          have hnm : ((deserInputs w outer ({ wd with values := wd.values ++ [({ name := (w.value v0).name, shape := none } : ValueS)] },
+              ((w.value v0).name, wd.values.length) :: cur) rest).1.value wd.values.length).name = (w.value v0).name := by
+            rw [a.value hlt0, value_push]
+          refine ⟨(VExt.push wd _).trans a, an, b, ?_, ?_, ?_, ?_, All2.cons hnm f⟩
           · intro x y hxy
             apply c
-            rw [slookup_cons]
+            rw [List.cons_append, slookup_cons]
             split
             · rename_i hx; subst hx; rw [hl] at hxy; cases hxy
+            · exact hxy
+          · intro x y hxy
+            apply cc
+            rw [slookup_cons]
+            split
+            · rename_i hx; subst hx; rw [hlcur] at hxy; cases hxy
             · exact hxy
           · intro v hv hne
             simp only [List.mem_cons] at hv
@@ -211,35 +295,35 @@ theorem deserInputs_spec (w : World) (vals : List VId) : ∀ (ins : List (Option
             simp only [List.mem_cons] at hx
             rcases hx with hx | hx
             · cases hx
-              have : wd.values.length < (wd.values ++ [({ name := (w.value v0).name, shape := none } : ValueS)]).length := by simp
-              exact Nat.lt_of_lt_of_le this a.len
+              exact Nat.lt_of_lt_of_le hlt0 a.len
             · exact e x hx
 
-/-! ### node outputs by name -/
+/-! ### node outputs by name (current scope only) -/
 
-structure OutputsSpec (w : World) (vals : List VId) (wd : World) (sc : Scope) (outs : List VId)
+structure OutputsSpec (w : World) (wd : World) (sc : Scope) (outs : List VId)
     (r : World × List VId) : Prop where
   vext : VExt wd r.1
+  nodes : r.1.nodes = wd.nodes
   found : ∀ o ∈ outs, (w.value o).name ≠ "" → ∀ b, slookup sc (w.value o).name = some b → b ∈ r.2
   lt : ∀ b ∈ r.2, b < r.1.values.length
 
-theorem deserOutputs_spec (w : World) (vals : List VId) (sc : Scope) : ∀ (outs : List VId) (wd : World),
-    ScopeOK w vals wd sc → OutputsSpec w vals wd sc outs (deserOutputs w sc wd outs) := by
+theorem deserOutputs_spec (w : World) (sc : Scope) : ∀ (outs : List VId) (wd : World),
+    (∀ p ∈ sc, p.2 < wd.values.length) → OutputsSpec w wd sc outs (deserOutputs w sc wd outs) := by
   intro outs
   induction outs with
-  | nil => intro wd _; exact ⟨VExt.refl wd, by simp, by simp [deserOutputs]⟩
+  | nil => intro wd _; exact ⟨VExt.refl wd, rfl, by simp, by simp [deserOutputs]⟩
   | cons o rest ih =>
     intro wd h
     simp only [deserOutputs]
     cases hm : (if (w.value o).name = "" then none else slookup sc (w.value o).name) with
     | some v' =>
       simp only
-      obtain ⟨a, b, c⟩ := ih wd h
+      obtain ⟨a, an, b, c⟩ := ih wd h
       have hv' : slookup sc (w.value o).name = some v' := by
         split at hm
         · cases hm
         · exact hm
-      refine ⟨a, ?_, ?_⟩
+      refine ⟨a, an, ?_, ?_⟩
       · intro x hx hne y hy
         simp only [List.mem_cons] at hx
         rcases hx with hx | hx
@@ -248,13 +332,13 @@ theorem deserOutputs_spec (w : World) (vals : List VId) (sc : Scope) : ∀ (outs
       · intro y hy
         simp only [List.mem_cons] at hy
         rcases hy with hy | hy
-        · subst hy; exact Nat.lt_of_lt_of_le (h.lt _ (slookup_mem hv')) a.len
+        · subst hy; exact Nat.lt_of_lt_of_le (h _ (slookup_mem hv')) a.len
         · exact c y hy
     | none =>
       simp only
       have he := VExt.push wd ({ name := (w.value o).name, shape := none } : ValueS)
-      obtain ⟨a, b, c⟩ := ih _ (h.vext he)
-      refine ⟨he.trans a, ?_, ?_⟩
+      obtain ⟨a, an, b, c⟩ := ih _ (fun p hp => Nat.lt_of_lt_of_le (h p hp) he.len)
+      refine ⟨he.trans a, an, ?_, ?_⟩
       · intro x hx hne y hy
         simp only [List.mem_cons] at hx
         rcases hx with hx | hx
@@ -269,6 +353,7 @@ theorem deserOutputs_spec (w : World) (vals : List VId) (sc : Scope) : ∀ (outs
           have : wd.values.length < (wd.values ++ [({ name := (w.value o).name, shape := none } : ValueS)]).length := by simp
           exact Nat.lt_of_lt_of_le this a.len
         · exact c y hy
+
 
 /-! ### device configurations by name, when every name resolves -/
 
@@ -486,35 +571,107 @@ theorem rtNode_ok {w : World} {ms : ModelS} {nd : NodeS} {dev0 : List NodeCfg}
     obtain ⟨b, hb, _⟩ := hres nc hnc s hs
     exact ⟨b, hb⟩
 
-/-! ### declaring the node outputs -/
+/-! ### the correspondence between a source node and its deserialized copy -/
 
-theorem ScopeOK.of_values_eq {w : World} {vals : List VId} {wd wd' : World} {sc : Scope}
-    (h : ScopeOK w vals wd sc) (hv : wd'.values = wd.values) : ScopeOK w vals wd' sc := by
-  refine ⟨fun p hp => by rw [hv]; exact h.lt p hp, h.inj, ?_⟩
-  intro p hp hne v hvm hname
-  have : wd'.value p.2 = wd.value p.2 := by simp [World.value, hv]
-  rw [this]; exact h.shape p hp hne v hvm hname
+/-- a spec and its copy: the copy targets an existing value of the *same name*, same devices, same
+    sharded axes (axis, dimension, number of shards) in the same order -/
+def SpecRel (w w' : World) (s s' : Spec) : Prop :=
+  s'.value < w'.values.length ∧ (w'.value s'.value).name = (w.value s.value).name ∧
+  s'.device = s.device ∧ s'.dims = s.dims
 
-theorem declareOutputs_spec (w : World) (vals : List VId)
+/-- a node configuration and its copy: the copy's configuration object is a record-for-record copy
+    (name, num_devices, device names), same stage, specs correspond position by position -/
+def CfgRel (w w' : World) (nc nc' : NodeCfg) : Prop :=
+  w'.cfg nc'.cfg = w.cfg nc.cfg ∧ nc'.stage = nc.stage ∧ All2 (SpecRel w w') nc.specs nc'.specs
+
+/-- a node and its copy: the annotation records correspond position by position -/
+def NodeRel (w w' : World) (nd nd' : NodeS) : Prop := All2 (CfgRel w w') nd.dev nd'.dev
+
+theorem SpecRel.vext {w a b : World} {s s' : Spec} (h : SpecRel w a s s') (he : VExt a b) : SpecRel w b s s' :=
+  ⟨Nat.lt_of_lt_of_le h.1 he.len, by rw [he.value h.1]; exact h.2.1, h.2.2⟩
+
+theorem CfgRel.vext {w a b : World} {nc nc' : NodeCfg} (h : CfgRel w a nc nc') (he : VExt a b) : CfgRel w b nc nc' := by
+  refine ⟨?_, h.2.1, All2.imp (fun _ _ hs => hs.vext he) h.2.2⟩
+  have : b.cfg nc'.cfg = a.cfg nc'.cfg := by simp [World.cfg, he.cfgs]
+  rw [this]; exact h.1
+
+theorem NodeRel.vext {w a b : World} {nd nd' : NodeS} (h : NodeRel w a nd nd') (he : VExt a b) : NodeRel w b nd nd' :=
+  All2.imp (fun _ _ hc => hc.vext he) h
+
+theorem rtNode_rel {w : World} {ms : ModelS} {dev0 : List NodeCfg}
+    {wd w3 : World} {sc1 : Scope} {known : List (String × CId)} {newCfgs : List CId}
+    (hregs : ∀ nc ∈ dev0, nc.cfg ∈ rtRegs ms)
+    (hk : KnownOK w ms wd known newCfgs) (hcf : w3.cfgs = wd.cfgs)
+    (hsc : ScopeOK w (modelValues w ms) w3 sc1)
+    (hres : ∀ nc ∈ dev0, ∀ s ∈ nc.specs, ∃ b, slookup sc1 (w.value s.value).name = some b) :
+    All2 (CfgRel w w3) dev0 (rtDev w sc1 known dev0) := by
+  have hdev : rtDev w sc1 known dev0 = dev0.map (fun nc => resolveCfg sc1 known (cfgProto w nc)) := by
+    simp [rtDev, List.map_map, Function.comp_def]
+  rw [hdev]
+  apply All2.map_right
+  intro nc hnc
+  obtain ⟨c', hc1, _, _, hc4⟩ := hk.found _ (hregs nc hnc)
+  refine ⟨?_, rfl, ?_⟩
+  · have : (resolveCfg sc1 known (cfgProto w nc)).cfg = c' := by simp [resolveCfg, cfgProto, hc1]
+    rw [this]
+    have : w3.cfg c' = wd.cfg c' := by simp [World.cfg, hcf]
+    rw [this, hc4]
+  · show All2 (SpecRel w w3) nc.specs ((cfgProto w nc).specs.map (resolveSpec sc1))
+    have : (cfgProto w nc).specs.map (resolveSpec sc1) = nc.specs.map (fun s => resolveSpec sc1 (specProto w s)) := by
+      simp [cfgProto, List.map_map, Function.comp_def]
+    rw [this]
+    apply All2.map_right
+    intro s hs
+    obtain ⟨b, hb⟩ := hres nc hnc s hs
+    have hval : (resolveSpec sc1 (specProto w s)).value = b := by simp [resolveSpec, specProto, hb]
+    refine ⟨?_, ?_, rfl, rfl⟩
+    · rw [hval]; exact hsc.lt _ (slookup_mem hb)
+    · rw [hval]; exact hsc.name _ (slookup_mem hb)
+
+/-! ### declaring graph inputs and node outputs -/
+
+theorem declareInputs_spec (w : World) (vals : List VId) (outer : Scope)
     (hU : ∀ a ∈ vals, ∀ b ∈ vals, (w.value a).name = (w.value b).name → (w.value a).name ≠ "" → a = b) :
-    ∀ (outs : List VId) (wd : World) (sc : Scope) (st : World × Scope),
-    ScopeOK w vals wd sc → (∀ o ∈ outs, o ∈ vals) → declareOutputs w (wd, sc) outs = some st →
-    VExt wd st.1 ∧ ScopeOK w vals st.1 st.2 ∧ (∀ x b, slookup sc x = some b → slookup st.2 x = some b) ∧
+    ∀ (ins : List VId) (wd : World) (cur : Scope), ScopeOK w vals wd (cur ++ outer) → (∀ v ∈ ins, v ∈ vals) →
+    VExt wd (declareInputs w (wd, cur) ins).1 ∧ (declareInputs w (wd, cur) ins).1.nodes = wd.nodes ∧
+    ScopeOK w vals (declareInputs w (wd, cur) ins).1 ((declareInputs w (wd, cur) ins).2 ++ outer) := by
+  intro ins
+  induction ins with
+  | nil => intro wd cur h _; exact ⟨VExt.refl wd, rfl, h⟩
+  | cons v rest ih =>
+    intro wd cur h hvals
+    simp only [declareInputs]
+    have hpush := h.push (w.value v).name (w.value v) rfl (by
+      intro hne x hx hnm
+      left
+      have := hU x hx v (hvals v (by simp)) hnm (by rw [hnm]; exact hne)
+      rw [this])
+    have hpush' : ScopeOK w vals { wd with values := wd.values ++ [w.value v] }
+        ((((w.value v).name, wd.values.length) :: cur) ++ outer) := hpush
+    obtain ⟨a, an, b⟩ := ih _ _ hpush' (fun x hx => hvals x (by simp [hx]))
+    exact ⟨(VExt.push wd _).trans a, an, b⟩
+
+theorem declareOutputs_spec (w : World) (vals : List VId) (outer : Scope)
+    (hU : ∀ a ∈ vals, ∀ b ∈ vals, (w.value a).name = (w.value b).name → (w.value a).name ≠ "" → a = b) :
+    ∀ (outs : List VId) (wd : World) (cur : Scope) (st : World × Scope),
+    ScopeOK w vals wd (cur ++ outer) → (∀ o ∈ outs, o ∈ vals) → declareOutputs w (wd, cur) outs = some st →
+    VExt wd st.1 ∧ st.1.nodes = wd.nodes ∧ ScopeOK w vals st.1 (st.2 ++ outer) ∧
+    (∀ x b, slookup cur x = some b → slookup st.2 x = some b) ∧
     (∀ o ∈ outs, (w.value o).name ≠ "" → ∃ b, slookup st.2 (w.value o).name = some b) := by
   intro outs
   induction outs with
   | nil =>
-    intro wd sc st h _ hd
+    intro wd cur st h _ hd
     simp only [declareOutputs, Option.some.injEq] at hd
     subst hd
-    exact ⟨VExt.refl wd, h, fun _ _ hx => hx, by simp⟩
+    exact ⟨VExt.refl wd, rfl, h, fun _ _ hx => hx, by simp⟩
   | cons o rest ih =>
-    intro wd sc st h hvals hd
+    intro wd cur st h hvals hd
     simp only [declareOutputs] at hd
     split at hd
     · rename_i hname
-      obtain ⟨a, b, c, d⟩ := ih wd sc st h (fun x hx => hvals x (by simp [hx])) hd
-      refine ⟨a, b, c, ?_⟩
+      obtain ⟨a, an, b, c, d⟩ := ih wd cur st h (fun x hx => hvals x (by simp [hx])) hd
+      refine ⟨a, an, b, c, ?_⟩
       intro x hx hne
       simp only [List.mem_cons] at hx
       rcases hx with hx | hx
@@ -524,19 +681,21 @@ theorem declareOutputs_spec (w : World) (vals : List VId)
       split at hd
       · cases hd
       · rename_i hnone
-        have hl : slookup sc (w.value o).name = none := by
-          cases hx : slookup sc (w.value o).name with
+        have hl : slookup cur (w.value o).name = none := by
+          cases hx : slookup cur (w.value o).name with
           | none => rfl
           | some y => simp [hx] at hnone
-        have hpush := h.push (w.value o).name (w.value o) (by
+        have hpush := h.push (w.value o).name (w.value o) rfl (by
           intro _ v hv hnm
           left
           have := hU v hv o (hvals o (by simp)) hnm (by rw [hnm]; exact hname)
           rw [this])
-        obtain ⟨a, b, c, d⟩ := ih _ _ st hpush (fun x hx => hvals x (by simp [hx])) hd
-        have hnew : slookup (((w.value o).name, wd.values.length) :: sc) (w.value o).name = some wd.values.length := by
+        have hpush' : ScopeOK w vals { wd with values := wd.values ++ [w.value o] }
+            ((((w.value o).name, wd.values.length) :: cur) ++ outer) := hpush
+        obtain ⟨a, an, b, c, d⟩ := ih _ _ st hpush' (fun x hx => hvals x (by simp [hx])) hd
+        have hnew : slookup (((w.value o).name, wd.values.length) :: cur) (w.value o).name = some wd.values.length := by
           rw [slookup_cons]; simp
-        refine ⟨(VExt.push wd _).trans a, b, ?_, ?_⟩
+        refine ⟨(VExt.push wd _).trans a, an, b, ?_, ?_⟩
         · intro x y hxy
           apply c
           rw [slookup_cons]
@@ -548,24 +707,6 @@ theorem declareOutputs_spec (w : World) (vals : List VId)
           rcases hx with hx | hx
           · subst hx; exact ⟨_, c _ _ hnew⟩
           · exact d x hx hne
-
-/-! ### all nodes -/
-
-/-- what holds of the world and scope while the nodes are being deserialized -/
-structure RTInv (w : World) (ms : ModelS) (newCfgs : List CId) (wd : World) (sc : Scope) : Prop where
-  ext : Ext w wd
-  cfgs : wd.cfgs = w.cfgs ++ (rtRegs ms).map w.cfg
-  models : wd.models = w.models
-  nodes : ∃ extra, wd.nodes = w.nodes ++ extra ∧
-    ∀ nd ∈ extra, NodeOK wd nd ∧ ∀ nc ∈ nd.dev, nc.cfg ∈ newCfgs
-  scope : ScopeOK w (modelValues w ms) wd sc
-  declared : ∀ n ∈ ms.nodes, ∀ o ∈ serOutputs w (w.node n), (w.value o).name ≠ "" →
-    ∃ b, slookup sc (w.value o).name = some b
-
-/-- the pair `deserNodes` receives for node `n`: the node with trimmed outputs and the protos of
-    the annotations that were serialized for it -/
-def rtPair (w : World) (devOf : NId → List NodeCfg) (n : NId) : NodeS × List PCfg :=
-  ({ (w.node n) with outputs := serOutputs w (w.node n) }, (devOf n).map (cfgProto w))
 
 theorem mem_modelValues_of_io {w : World} {ms : ModelS} {n : NId} (hn : n ∈ ms.nodes) {v : VId}
     (hv : InIO (w.node n) v) : v ∈ modelValues w ms := by
@@ -579,96 +720,13 @@ theorem mem_modelValues_of_io {w : World} {ms : ModelS} {n : NId} (hn : n ∈ ms
   · left; simp only [List.mem_filterMap, id]; exact ⟨some v, hv, rfl⟩
   · right; exact hv
 
-theorem deserNodes_inv {w : World} {ms : ModelS} {known : List (String × CId)} {newCfgs : List CId}
-    (devOf : NId → List NodeCfg)
-    (hU : NamesUnique w ms) (hD : DevOK w) (hmo : ModelOK w ms)
-    (hsub : ∀ n, (devOf n).Sublist (w.node n).dev)
-    (hnamed : ∀ n ∈ ms.nodes, ∀ nc ∈ devOf n, ∀ s ∈ nc.specs, (w.value s.value).name ≠ "")
-    (hregs : ∀ n ∈ ms.nodes, ∀ nc ∈ devOf n, nc.cfg ∈ rtRegs ms)
-    (hk : ∀ wd, wd.cfgs = w.cfgs ++ (rtRegs ms).map w.cfg → KnownOK w ms wd known newCfgs) :
-    ∀ (ns0 : List NId) (wd : World) (sc : Scope) (acc : List NId), (∀ n ∈ ns0, n ∈ ms.nodes) →
-    RTInv w ms newCfgs wd sc → (∀ k ∈ acc, w.nodes.length ≤ k ∧ k < wd.nodes.length) →
-    ∃ scf, RTInv w ms newCfgs (deserNodes w known (wd, sc) (ns0.map (rtPair w devOf)) acc).1 scf ∧
-      ∀ k ∈ (deserNodes w known (wd, sc) (ns0.map (rtPair w devOf)) acc).2,
-        w.nodes.length ≤ k ∧ k < (deserNodes w known (wd, sc) (ns0.map (rtPair w devOf)) acc).1.nodes.length := by
-  intro ns0
-  induction ns0 with
-  | nil =>
-    intro wd sc acc _ h hacc
-    exact ⟨sc, h, fun k hk => hacc k (List.mem_reverse.mp hk)⟩
-  | cons n rest ih =>
-    intro wd sc acc hns h hacc
-    have hn : n ∈ ms.nodes := hns n (by simp)
-    simp only [List.map_cons, rtPair, deserNodes]
-    -- inputs
-    have h1 := deserInputs_spec w (modelValues w ms) (w.node n).inputs wd sc h.scope
-    generalize hr1 : deserInputs w (wd, sc) (w.node n).inputs = r1 at h1 ⊢
-    obtain ⟨wd1, sc1, ins'⟩ := r1
-    obtain ⟨e1, ok1, mono1, found1, lt1⟩ := h1
-    simp only at e1 ok1 mono1 found1 lt1 ⊢
-    -- outputs
-    have h2 := deserOutputs_spec w (modelValues w ms) sc1 (serOutputs w (w.node n)) wd1 ok1
-    generalize hr2 : deserOutputs w sc1 wd1 (serOutputs w (w.node n)) = r2 at h2 ⊢
-    obtain ⟨wd2, outs'⟩ := r2
-    obtain ⟨e2, found2, lt2⟩ := h2
-    simp only at e2 found2 lt2 ⊢
-    have e12 : VExt wd wd2 := e1.trans e2
-    have hcf2 : wd2.cfgs = wd.cfgs := e12.cfgs
-    have ok2 : ScopeOK w (modelValues w ms) wd2 sc1 := ok1.vext e2
-    -- the node
-    have hnode := rtNode_ok (nd := w.node n) (dev0 := devOf n) (wd := wd) (w3 := wd2) (sc1 := sc1)
-      (known := known) (newCfgs := newCfgs) (ins' := ins') (outs' := outs') hU hmo (hD.node n)
-      (fun v hv => mem_modelValues_of_io hn hv) (hsub n) (hnamed n hn) (hregs n hn) (hk wd h.cfgs) hcf2 ok2
-      (fun v hv hne => found1 v hv hne)
-      (by
-        intro o ho hne
-        have hso := mem_serOutputs ho hne
-        obtain ⟨b, hb⟩ := h.declared n hn o hso hne
-        have hb1 := mono1 _ _ hb
-        exact ⟨b, hb1, found2 o hso hne b hb1⟩)
-      (fun b hb => Nat.lt_of_lt_of_le (lt1 b hb) e2.len) lt2
-    obtain ⟨hnok, hncfg, hresolved⟩ := hnode
-    rw [deserCfgs_resolved sc1 known _ wd2 hresolved]
-    simp only
-    -- the world with the new node
-    generalize hnn : ({ inputs := ins', outputs := outs', dev := List.map (resolveCfg sc1 known) (List.map (cfgProto w) (devOf n)) } : NodeS) = nn
-    have hnok' : NodeOK wd2 nn := by rw [← hnn]; exact hnok
-    have hncfg' : ∀ nc ∈ nn.dev, nc.cfg ∈ newCfgs := by rw [← hnn]; exact hncfg
-    obtain ⟨extra, hex, hok⟩ := h.nodes
-    have hext2 : Ext wd wd2 := e12.toExt
-    apply ih
-    · intro x hx; exact hns x (by simp [hx])
-    · refine ⟨h.ext.trans (Ext.of_eq (w := wd2) rfl rfl |> fun e => hext2.trans e), ?_, ?_, ?_, ?_, ?_⟩
-      · show wd2.cfgs = _
-        rw [hcf2]; exact h.cfgs
-      · show wd2.models = _
-        rw [e12.models]; exact h.models
-      · refine ⟨extra ++ [nn], ?_, ?_⟩
-        · show wd2.nodes ++ [nn] = w.nodes ++ (extra ++ [nn])
-          rw [e12.nodes, hex, List.append_assoc]
-        · intro x hx
-          simp only [List.mem_append, List.mem_singleton] at hx
-          rcases hx with hx | hx
-          · exact ⟨((hok x hx).1.ext hext2).ext (Ext.of_eq rfl rfl), (hok x hx).2⟩
-          · subst hx
-            exact ⟨hnok'.ext (Ext.of_eq rfl rfl), hncfg'⟩
-      · exact ok2.of_values_eq rfl
-      · intro n' hn' o ho hne
-        obtain ⟨b, hb⟩ := h.declared n' hn' o ho hne
-        exact ⟨b, mono1 _ _ hb⟩
-    · intro k hk
-      simp only [List.mem_cons] at hk
-      rcases hk with hk | hk
-      · subst hk
-        simp only [List.length_append, List.length_singleton]
-        rw [e12.nodes, hex]
-        simp only [List.length_append]
-        exact ⟨Nat.le_add_right _ _, Nat.lt_succ_self _⟩
-      · simp only [List.length_append, List.length_singleton]
-        rw [e12.nodes]
-        exact ⟨(hacc k hk).1, Nat.lt_succ_of_lt (hacc k hk).2⟩
-
-/-! ### what was serialized -/
+theorem mem_modelValues_of_input {w : World} {ms : ModelS} {g : GId} (hg : g ∈ ms.graphs) {v : VId}
+    (hv : v ∈ (w.graph g).inputs) : v ∈ modelValues w ms := by
+  unfold modelValues
+  rw [List.mem_append]
+  left
+  simp only [List.mem_flatten, List.mem_map]
+  exact ⟨_, ⟨g, hg, rfl⟩, hv⟩
 
 theorem optAll_all {α : Type} : ∀ {l : List (Option α)} {r : List α}, optAll l = some r →
     ∀ o ∈ l, ∃ a, o = some a := by
@@ -689,58 +747,6 @@ theorem optAll_all {α : Type} : ∀ {l : List (Option α)} {r : List α}, optAl
         · exact ⟨a, ho⟩
         · exact ih hr o ho
 
-/-- the annotations of node `n` that reach the proto -/
-def serDevOf (w : World) (ms : ModelS) (n : NId) : List NodeCfg :=
-  if 11 ≤ ms.irVersion then (w.node n).dev else []
-
-theorem serModelDev_protos {w : World} {m : MId} {protos : List (List PCfg)}
-    (h : serModelDev w m = some protos) :
-    protos = (w.model m).nodes.map (fun n => (serDevOf w (w.model m) n).map (cfgProto w)) ∧
-    ∀ n ∈ (w.model m).nodes, ∀ nc ∈ serDevOf w (w.model m) n,
-      ∀ s ∈ nc.specs, (w.value s.value).name ≠ "" := by
-  by_cases hir : 11 ≤ (w.model m).irVersion
-  · constructor
-    · rw [serModelDev_eq h hir]
-      apply List.map_congr_left
-      intro n _
-      simp [serDevOf, hir]
-    · intro n hn nc hnc s hs
-      simp only [serDevOf, hir, if_true] at hnc
-      unfold serModelDev at h
-      obtain ⟨a, ha⟩ := optAll_all h (serNodeDev w (w.model m).irVersion (w.node n))
-        (List.mem_map_of_mem (f := fun n => serNodeDev w (w.model m).irVersion (w.node n)) hn)
-      unfold serNodeDev at ha
-      have : ¬ (w.model m).irVersion < 11 := by omega
-      simp only [this, if_false] at ha
-      obtain ⟨p, hp⟩ := optAll_all ha (serCfg w nc) (List.mem_map_of_mem hnc)
-      unfold serCfg at hp
-      split at hp
-      · cases hp
-      · cases ho : optAll (nc.specs.map (serSpec w)) with
-        | none => simp [ho] at hp
-        | some sp =>
-          obtain ⟨q, hq⟩ := optAll_all ho (serSpec w s) (List.mem_map_of_mem hs)
-          unfold serSpec at hq
-          split at hq
-          · cases hq
-          · assumption
-  · constructor
-    · unfold serModelDev at h
-      have hlt : (w.model m).irVersion < 11 := by omega
-      have := optAll_map (f := fun n => serNodeDev w (w.model m).irVersion (w.node n))
-        (g := fun _ => ([] : List PCfg)) (l := (w.model m).nodes) (r := protos) (by
-          intro n _ b hb
-          simp only [serNodeDev, hlt, if_true, Option.some.injEq] at hb
-          exact hb.symm) h
-      rw [this]
-      apply List.map_congr_left
-      intro n _
-      simp [serDevOf, hir]
-    · intro n _ nc hnc
-      simp [serDevOf, hir] at hnc
-
-/-! ### the initial scope and the configuration table -/
-
 theorem zip_map_left' {α β γ : Type} (f : α → γ) : ∀ (l : List α) (r : List β),
     (l.map f).zip r = (l.zip r).map (fun p => (f p.1, p.2)) := by
   intro l
@@ -751,36 +757,6 @@ theorem zip_map_left' {α β γ : Type} (f : α → γ) : ∀ (l : List α) (r :
     cases r with
     | nil => simp
     | cons b rs => simp [ih]
-
-theorem initScope_ok (w : World) (ms : ModelS) (w2 : World) (hU : NamesUnique w ms)
-    (hv : w2.values = w.values ++ ms.inputs.map w.value) :
-    ScopeOK w (modelValues w ms) w2 (rtScope0 w ms) := by
-  unfold rtScope0 rtNewIns
-  rw [zip_map_left']
-  refine ⟨?_, ?_, ?_⟩
-  · intro p hp
-    rw [List.mem_reverse, List.mem_map] at hp
-    obtain ⟨q, hq, rfl⟩ := hp
-    have := (zip_range'_value (wc := w) (outs := ms.inputs) (a := q.1) (b := q.2) hq w2 hv).2.2.1
-    rw [hv]; simpa using this
-  · rw [List.map_reverse, nodup_reverse', List.map_map]
-    have : (ms.inputs.zip (List.range' w.values.length ms.inputs.length)).map
-        ((fun p : String × VId => p.2) ∘ fun p => ((w.value p.1).name, p.2))
-        = (ms.inputs.zip (List.range' w.values.length ms.inputs.length)).map Prod.snd := by
-      apply List.map_congr_left; intro p _; rfl
-    rw [this, List.map_snd_zip (by simp)]
-    exact List.nodup_range' (h := by decide)
-  · intro p hp hne v hvm hname
-    rw [List.mem_reverse, List.mem_map] at hp
-    obtain ⟨q, hq, rfl⟩ := hp
-    obtain ⟨h1, _, _, h4⟩ := zip_range'_value (wc := w) (outs := ms.inputs) (a := q.1) (b := q.2) hq w2 hv
-    left
-    simp only at hname hne ⊢
-    rw [h1]
-    have hq1 : q.1 ∈ modelValues w ms := by
-      unfold modelValues; exact List.mem_append_left _ h4
-    have := hU v hvm q.1 hq1 hname (by rw [hname]; exact hne)
-    rw [this]
 
 theorem known_ok (w : World) (ms : ModelS) (hmo : ModelOK w ms) (wd : World)
     (hc : wd.cfgs = w.cfgs ++ (rtRegs ms).map w.cfg) :
@@ -855,167 +831,619 @@ theorem known_ok (w : World) (ms : ModelS) (hmo : ModelOK w ms) (wd : World)
 
 /-! ### the round trip -/
 
-theorem deserModel_ok {w : World} (h : DevOK w) (m : MId) (hU : NamesUnique w (w.model m))
-    {protos : List (List PCfg)} (hser : serModelDev w m = some protos) {w' : World}
-    (hd : deserModel w m protos = some w') : DevOK w' := by
-  obtain ⟨hprotos, hnamed⟩ := serModelDev_protos hser
-  have hmo := h.model m
-  unfold deserModel at hd
-  simp only at hd
-  have hv2 : (rtWorld0 w (w.model m)).values = w.values ++ (w.model m).inputs.map w.value := rfl
-  have hc2 : (rtWorld0 w (w.model m)).cfgs = w.cfgs ++ (rtRegs (w.model m)).map w.cfg := rfl
-  have hn2 : (rtWorld0 w (w.model m)).nodes = w.nodes := rfl
-  have hm2 : (rtWorld0 w (w.model m)).models = w.models := rfl
-  generalize rtWorld0 w (w.model m) = w2 at hd hv2 hc2 hn2 hm2
-  have hsc0 : ScopeOK w (modelValues w (w.model m)) w2 (rtScope0 w (w.model m)) :=
-    initScope_ok w (w.model m) w2 hU hv2
-  cases hdo : declareOutputs w (w2, rtScope0 w (w.model m))
-      (((w.model m).nodes.map (fun n => serOutputs w (w.node n))).flatten) with
-  | none => simp [hdo] at hd
-  | some st =>
-    simp only [hdo, Option.some.injEq] at hd
-    obtain ⟨e0, ok0, _, decl0⟩ := declareOutputs_spec w (modelValues w (w.model m)) hU _ _ _ st hsc0 (by
+
+/-! ### the deserializer over nested graphs -/
+
+theorem optAll_map_some {α β : Type} {f : α → Option β} {g : α → β} : ∀ {l : List α},
+    (∀ a ∈ l, f a = some (g a)) → optAll (l.map f) = some (l.map g) := by
+  intro l
+  induction l with
+  | nil => intro _; rfl
+  | cons a rest ih =>
+    intro h
+    simp only [List.map_cons, h a (by simp), optAll, ih (fun x hx => h x (by simp [hx]))]
+    rfl
+
+/-- when every name is non-empty the ungated device field of a node is its annotations by name -/
+theorem serNodeDev_named {w : World} {nd : NodeS}
+    (hc : ∀ nc ∈ nd.dev, (w.cfg nc.cfg).name ≠ "")
+    (hs : ∀ nc ∈ nd.dev, ∀ s ∈ nc.specs, (w.value s.value).name ≠ "") :
+    serNodeDev w false nd = some (nd.dev.map (cfgProto w)) := by
+  unfold serNodeDev
+  simp only [Bool.false_eq_true, if_false]
+  apply optAll_map_some
+  intro nc hnc
+  unfold serCfg
+  simp only [hc nc hnc, if_false]
+  have : optAll (nc.specs.map (serSpec w)) = some (nc.specs.map (specProto w)) := by
+    apply optAll_map_some
+    intro s hs'
+    unfold serSpec
+    simp [hs nc hnc s hs', specProto]
+  rw [this]; rfl
+
+/-- the fixed facts about the source model during a round trip -/
+structure RTCtx (w : World) (ms : ModelS) : Prop where
+  hU : NamesUnique w ms
+  hD : DevOK w
+  hmo : ModelOK w ms
+  hcl : Closed w ms
+  hir : 11 ≤ ms.irVersion
+  hnamed : ∀ n ∈ ms.nodes, ∀ nc ∈ (w.node n).dev, ∀ s ∈ nc.specs, (w.value s.value).name ≠ ""
+
+/-- invariant of the deserializer state relative to the source world `w` and model `ms` -/
+structure DInv (w : World) (ms : ModelS) (st : DSt) : Prop where
+  ext : Ext w st.w
+  cfgs : st.w.cfgs = w.cfgs ++ (rtRegs ms).map w.cfg
+  models : st.w.models = w.models
+  nodes : ∃ extra, st.w.nodes = w.nodes ++ extra ∧
+    ∀ nd ∈ extra, NodeOK st.w nd ∧ ∀ nc ∈ nd.dev, nc.cfg ∈ rtNewCfgs w ms
+  plen : st.srcNodes.length = st.newNodes.length
+  pairs : ∀ p ∈ st.srcNodes.zip st.newNodes, p.1 ∈ ms.nodes ∧ w.nodes.length ≤ p.2 ∧ p.2 < st.w.nodes.length ∧
+      NodeRel w st.w (w.node p.1) (st.w.node p.2)
+
+/-- the invariant survives growth of the value heap -/
+theorem DInv.grow {w : World} {ms : ModelS} {st : DSt} (h : DInv w ms st) {w2 : World}
+    (he : VExt st.w w2) (hn : w2.nodes = st.w.nodes) : DInv w ms { st with w := w2 } := by
+  obtain ⟨extra, hex, hok⟩ := h.nodes
+  have hpp := h.pairs
+  refine ⟨h.ext.trans he.toExt, by show w2.cfgs = _; rw [he.cfgs, h.cfgs], by show w2.models = _; rw [he.models, h.models],
+    ⟨extra, by show w2.nodes = _; rw [hn, hex], ?_⟩, h.plen, ?_⟩
+  · intro nd hnd; exact ⟨(hok nd hnd).1.ext he.toExt, (hok nd hnd).2⟩
+  · intro p hp
+    obtain ⟨a, b, c, d⟩ := hpp p hp
+    refine ⟨a, b, by show p.2 < w2.nodes.length; rw [hn]; exact c, ?_⟩
+    show NodeRel w w2 (w.node p.1) (w2.node p.2)
+    have : w2.node p.2 = st.w.node p.2 := by simp [World.node, hn]
+    rw [this]; exact d.vext he
+
+def RecSpecD (w : World) (ms : ModelS) (rec : DSt → Scope → GId → Option (DSt × GId)) : Prop :=
+  ∀ st outer g st' g', g ∈ ms.graphs → rec st outer g = some (st', g') → DInv w ms st →
+    ScopeOK w (modelValues w ms) st.w outer → DInv w ms st' ∧ VExt st.w st'.w
+
+theorem deserSubgraphs_spec {w : World} {ms : ModelS} {rec : DSt → Scope → GId → Option (DSt × GId)}
+    (hrec : RecSpecD w ms rec) (outer : Scope) : ∀ (gs : List GId) (st st' : DSt) (subs : List GId),
+    (∀ g ∈ gs, g ∈ ms.graphs) → deserSubgraphs rec outer st gs = some (st', subs) → DInv w ms st →
+    ScopeOK w (modelValues w ms) st.w outer → DInv w ms st' ∧ VExt st.w st'.w := by
+  intro gs
+  induction gs with
+  | nil =>
+    intro st st' subs _ hc hinv _
+    simp only [deserSubgraphs, Option.some.injEq, Prod.mk.injEq] at hc
+    obtain ⟨rfl, _⟩ := hc
+    exact ⟨hinv, VExt.refl _⟩
+  | cons g rest ih =>
+    intro st st' subs hgs hc hinv hsc
+    simp only [deserSubgraphs] at hc
+    cases hr : rec st outer g with
+    | none => simp [hr] at hc
+    | some r =>
+      obtain ⟨st1, g1⟩ := r
+      simp only [hr] at hc
+      cases hr2 : deserSubgraphs rec outer st1 rest with
+      | none => simp [hr2] at hc
+      | some r2 =>
+        obtain ⟨st2, subs2⟩ := r2
+        simp only [hr2, Option.map_some, Option.some.injEq, Prod.mk.injEq] at hc
+        obtain ⟨rfl, _⟩ := hc
+        obtain ⟨b1, e1⟩ := hrec st outer g st1 g1 (hgs g (by simp)) hr hinv hsc
+        obtain ⟨b2, e2⟩ := ih st1 st2 subs2 (fun x hx => hgs x (by simp [hx])) hr2 b1 (hsc.vext e1)
+        exact ⟨b2, e1.trans e2⟩
+
+theorem KnownOK.of_cfgs {w : World} {ms : ModelS} (hmo : ModelOK w ms) {wd : World}
+    (hc : wd.cfgs = w.cfgs ++ (rtRegs ms).map w.cfg) : KnownOK w ms wd (rtKnown w ms) (rtNewCfgs w ms) :=
+  known_ok w ms hmo wd hc
+
+/-- the node `_deserialize_node` creates for source node `n` -/
+def deserNodeRec (w : World) (ms : ModelS) (n : NId) (sc1 : Scope) (ins' : List (Option VId))
+    (outs' : List VId) (subs : List GId) : NodeS :=
+  { inputs := ins', outputs := outs', dev := rtDev w sc1 (rtKnown w ms) (w.node n).dev, subgraphs := subs }
+
+theorem deserNode_spec {w : World} {ms : ModelS} {rec : DSt → Scope → GId → Option (DSt × GId)}
+    (ctx : RTCtx w ms) (hrec : RecSpecD w ms rec) {outer : Scope} {st st' : DSt} {cur cur1 : Scope}
+    {n k : NId} (hn : n ∈ ms.nodes)
+    (hc : deserNode rec w false (rtKnown w ms) outer st cur n = some (st', cur1, k))
+    (hinv : DInv w ms st) (hsc : ScopeOK w (modelValues w ms) st.w (cur ++ outer))
+    (hdecl : ∀ o ∈ serOutputs w (w.node n), (w.value o).name ≠ "" →
+      ∃ b, slookup cur (w.value o).name = some b) :
+    DInv w ms st' ∧ VExt st.w st'.w ∧ ScopeOK w (modelValues w ms) st'.w (cur1 ++ outer) ∧
+    (∀ x b, slookup cur x = some b → slookup cur1 x = some b) := by
+  unfold deserNode at hc
+  simp only at hc
+  -- inputs
+  have h1 := deserInputs_spec w (modelValues w ms) outer (w.node n).inputs st.w cur hsc
+  generalize hr1 : deserInputs w outer (st.w, cur) (w.node n).inputs = r1 at h1 hc
+  obtain ⟨wd1, sc1, ins'⟩ := r1
+  obtain ⟨e1, n1, ok1, mono1, monoCur1, found1, lt1, _⟩ := h1
+  simp only at e1 n1 ok1 mono1 monoCur1 found1 lt1 hc
+  -- outputs
+  have h2 := deserOutputs_spec w sc1 (serOutputs w (w.node n)) wd1
+    (fun p hp => ok1.lt p (List.mem_append_left _ hp))
+  generalize hr2 : deserOutputs w sc1 wd1 (serOutputs w (w.node n)) = r2 at h2 hc
+  obtain ⟨wd2, outs'⟩ := r2
+  obtain ⟨e2, n2, found2, lt2⟩ := h2
+  simp only at e2 n2 found2 lt2 hc
+  have e12 : VExt st.w wd2 := e1.trans e2
+  have hn12 : wd2.nodes = st.w.nodes := by rw [n2, n1]
+  have ok2 : ScopeOK w (modelValues w ms) wd2 (sc1 ++ outer) := ok1.vext e2
+  -- the annotations
+  have hcfgnamed : ∀ nc ∈ (w.node n).dev, (w.cfg nc.cfg).name ≠ "" := by
+    intro nc hnc
+    exact (ctx.hmo.2.1 nc.cfg ((ctx.hmo.1 n hn).2 nc hnc)).2
+  have hregs : ∀ nc ∈ (w.node n).dev, nc.cfg ∈ rtRegs ms := by
+    intro nc hnc
+    simp only [rtRegs, ctx.hir, if_true]
+    exact (ctx.hmo.1 n hn).2 nc hnc
+  have hk := KnownOK.of_cfgs ctx.hmo hinv.cfgs
+  have hnode := rtNode_ok (nd := w.node n) (dev0 := (w.node n).dev) (wd := st.w) (w3 := wd2)
+    (sc1 := sc1 ++ outer) (known := rtKnown w ms) (newCfgs := rtNewCfgs w ms) (ins' := ins') (outs' := outs')
+    ctx.hU ctx.hmo (ctx.hD.node n) (fun v hv => mem_modelValues_of_io hn hv) (List.Sublist.refl _)
+    (ctx.hnamed n hn) hregs hk e12.cfgs ok2
+    (fun v hv hne => found1 v hv hne)
+    (by
+      intro o ho hne
+      have hso := mem_serOutputs ho hne
+      obtain ⟨b, hb⟩ := hdecl o hso hne
+      have hb1 := monoCur1 _ _ hb
+      exact ⟨b, slookup_append_left hb1, found2 o hso hne b hb1⟩)
+    (fun b hb => Nat.lt_of_lt_of_le (lt1 b hb) e2.len) lt2
+  obtain ⟨hnok, hncfg, hresolved⟩ := hnode
+  have hrel := rtNode_rel (dev0 := (w.node n).dev) (wd := st.w) (w3 := wd2) (sc1 := sc1 ++ outer)
+    hregs hk e12.cfgs ok2 (by
+      intro nc hnc s hs
+      obtain ⟨_, hq⟩ := hresolved (cfgProto w nc) (List.mem_map_of_mem hnc)
+      exact hq (specProto w s) (by simp only [cfgProto]; exact List.mem_map_of_mem hs))
+  rw [serNodeDev_named hcfgnamed (ctx.hnamed n hn)] at hc
+  simp only [Option.getD_some] at hc
+  rw [deserCfgs_resolved (sc1 ++ outer) (rtKnown w ms) _ wd2 hresolved] at hc
+  simp only at hc
+  -- the subgraphs
+  have hinv2 : DInv w ms { st with w := wd2 } := hinv.grow e12 hn12
+  cases hsub : deserSubgraphs rec (sc1 ++ outer) { st with w := wd2 } (w.node n).subgraphs with
+  | none => simp [hsub] at hc
+  | some r =>
+    obtain ⟨st4, subs⟩ := r
+    simp only [hsub, Option.some.injEq, Prod.mk.injEq] at hc
+    obtain ⟨hst', hcur1, hk'⟩ := hc
+    obtain ⟨hinv4, e4⟩ := deserSubgraphs_spec hrec (sc1 ++ outer) _ _ _ _ (ctx.hcl.2.2.1 n hn) hsub hinv2 ok2
+    have e4' : VExt wd2 st4.w := e4
+    subst hcur1
+    -- the final world
+    have hnd' : NodeOK st4.w (deserNodeRec w ms n (sc1 ++ outer) ins' outs' subs) := by
+      have := hnok.ext e4'.toExt
+      exact this
+    have hrel' : NodeRel w st4.w (w.node n) (deserNodeRec w ms n (sc1 ++ outer) ins' outs' subs) :=
+      NodeRel.vext (nd' := deserNodeRec w ms n (sc1 ++ outer) ins' outs' subs) hrel e4'
+    obtain ⟨extra, hex, hok⟩ := hinv4.nodes
+    have hpp := hinv4.pairs
+    have hvfin : VExt st4.w st'.w := by
+      rw [← hst']
+      exact ⟨⟨[], by simp⟩, rfl, ⟨[_], rfl⟩, rfl⟩
+    have hnodes' : st'.w.nodes = st4.w.nodes ++ [deserNodeRec w ms n (sc1 ++ outer) ins' outs' subs] := by
+      rw [← hst']; rfl
+    have hnn' : st'.newNodes = st4.newNodes ++ [st4.w.nodes.length] := by rw [← hst']
+    have hsn' : st'.srcNodes = st4.srcNodes ++ [n] := by rw [← hst']
+    have hextfin : Ext st4.w st'.w := hvfin.toExt
+    refine ⟨⟨hinv4.ext.trans hextfin, by rw [hvfin.cfgs, hinv4.cfgs], by rw [hvfin.models, hinv4.models],
+      ⟨extra ++ [deserNodeRec w ms n (sc1 ++ outer) ins' outs' subs], by rw [hnodes', hex, List.append_assoc], ?_⟩,
+      by rw [hnn', hsn']; simp [hinv4.plen], ?_⟩,
+      (e12.trans e4').trans hvfin, ?_, monoCur1⟩
+    · intro x hx
+      simp only [List.mem_append, List.mem_singleton] at hx
+      rcases hx with hx | hx
+      · exact ⟨(hok x hx).1.ext hextfin, (hok x hx).2⟩
+      · subst hx; exact ⟨hnd'.ext hextfin, hncfg⟩
+    · intro p hp
+      rw [hnn', hsn', List.zip_append hinv4.plen] at hp
+      simp only [List.zip_cons_cons, List.zip_nil_right, List.mem_append, List.mem_singleton] at hp
+      rcases hp with hp | hp
+      · obtain ⟨a, b, c, d⟩ := hpp p hp
+        refine ⟨a, b, Nat.lt_of_lt_of_le c hvfin.nlen, ?_⟩
+        rw [hvfin.node c]; exact d.vext hvfin
+      · subst hp
+        refine ⟨hn, ?_, ?_, ?_⟩
+        · show w.nodes.length ≤ st4.w.nodes.length
+          rw [hex]; simp
+        · show st4.w.nodes.length < st'.w.nodes.length
+          rw [hnodes']; simp
+        · show NodeRel w st'.w (w.node n) (st'.w.node st4.w.nodes.length)
+          have : st'.w.node st4.w.nodes.length = deserNodeRec w ms n (sc1 ++ outer) ins' outs' subs := by
+            simp [World.node, hnodes', List.getD_eq_getElem?_getD]
+          rw [this]; exact hrel'.vext hvfin
+    · exact (ok2.vext e4').vext hvfin
+
+theorem deserNodes_spec {w : World} {ms : ModelS} {rec : DSt → Scope → GId → Option (DSt × GId)}
+    (ctx : RTCtx w ms) (hrec : RecSpecD w ms rec) (outer : Scope) :
+    ∀ (ns : List NId) (st : DSt) (cur : Scope) (acc : List NId) (st' : DSt) (res : List NId),
+    (∀ n ∈ ns, n ∈ ms.nodes) →
+    deserNodes rec w false (rtKnown w ms) outer st cur ns acc = some (st', res) →
+    DInv w ms st → ScopeOK w (modelValues w ms) st.w (cur ++ outer) →
+    (∀ n ∈ ns, ∀ o ∈ serOutputs w (w.node n), (w.value o).name ≠ "" → ∃ b, slookup cur (w.value o).name = some b) →
+    DInv w ms st' ∧ VExt st.w st'.w := by
+  intro ns
+  induction ns with
+  | nil =>
+    intro st cur acc st' res _ hc hinv _ _
+    simp only [deserNodes, Option.some.injEq, Prod.mk.injEq] at hc
+    obtain ⟨rfl, _⟩ := hc
+    exact ⟨hinv, VExt.refl _⟩
+  | cons n rest ih =>
+    intro st cur acc st' res hns hc hinv hsc hdecl
+    simp only [deserNodes] at hc
+    cases hdn : deserNode rec w false (rtKnown w ms) outer st cur n with
+    | none => simp [hdn] at hc
+    | some r =>
+      obtain ⟨st1, cur1, k⟩ := r
+      simp only [hdn] at hc
+      obtain ⟨b1, e1, sc1, m1⟩ := deserNode_spec ctx hrec (hns n (by simp)) hdn hinv hsc (hdecl n (by simp))
+      obtain ⟨b2, e2⟩ := ih st1 cur1 _ st' res (fun x hx => hns x (by simp [hx])) hc b1 sc1
+        (fun x hx o ho hne => by
+          obtain ⟨b, hb⟩ := hdecl x (by simp [hx]) o ho hne
+          exact ⟨b, m1 _ _ hb⟩)
+      exact ⟨b2, e1.trans e2⟩
+
+theorem DInv.of_eq {w : World} {ms : ModelS} {st st' : DSt} (h : DInv w ms st)
+    (hv : st'.w.values = st.w.values) (hc : st'.w.cfgs = st.w.cfgs) (hn : st'.w.nodes = st.w.nodes)
+    (hm : st'.w.models = st.w.models) (hnn : st'.newNodes = st.newNodes) (hsn : st'.srcNodes = st.srcNodes) :
+    DInv w ms st' := by
+  have he : VExt st.w st'.w := VExt.of_eq hv hc hn hm
+  have hg := h.grow he hn
+  exact ⟨hg.ext, hg.cfgs, hg.models, hg.nodes, by rw [hnn, hsn]; exact hg.plen,
+    by rw [hnn, hsn]; exact hg.pairs⟩
+
+theorem deserGraphBody_spec {w : World} {ms : ModelS} {rec : DSt → Scope → GId → Option (DSt × GId)}
+    (ctx : RTCtx w ms) (hrec : RecSpecD w ms rec) :
+    RecSpecD w ms (deserGraphBody rec w false (rtKnown w ms)) := by
+  intro st outer g st' g' hg hc hinv hsc
+  unfold deserGraphBody at hc
+  simp only at hc
+  have hUv : ∀ a ∈ modelValues w ms, ∀ b ∈ modelValues w ms,
+      (w.value a).name = (w.value b).name → (w.value a).name ≠ "" → a = b := ctx.hU
+  -- graph inputs
+  have h0 := declareInputs_spec w (modelValues w ms) outer hUv (w.graph g).inputs st.w [] (by simpa using hsc)
+    (fun v hv => mem_modelValues_of_input hg hv)
+  generalize hr0 : declareInputs w (st.w, []) (w.graph g).inputs = r0 at h0 hc
+  obtain ⟨e0, n0, ok0⟩ := h0
+  -- declared outputs
+  cases hdo : declareOutputs w r0 (((w.graph g).nodes.map (fun n => serOutputs w (w.node n))).flatten) with
+  | none => simp [hdo] at hc
+  | some r1 =>
+    simp only [hdo] at hc
+    have hr0' : r0 = (r0.1, r0.2) := rfl
+    rw [hr0'] at hdo
+    obtain ⟨e1, n1, ok1, _, decl1⟩ := declareOutputs_spec w (modelValues w ms) outer hUv _ r0.1 r0.2 r1 ok0 (by
       intro o ho
       simp only [List.mem_flatten, List.mem_map] at ho
       obtain ⟨l, ⟨n, hn, rfl⟩, hol⟩ := ho
-      exact mem_modelValues_of_io hn (Or.inr (serOutputs_sub hol))) hdo
-    -- the pairs deserNodes receives
-    have hzip : rtPairs w (w.model m) protos
-        = (w.model m).nodes.map (rtPair w (serDevOf w (w.model m))) := by
-      unfold rtPairs
-      rw [hprotos, List.zip_map']
-      rfl
-    rw [hzip] at hd
-    have hext2 : Ext w w2 := by
-      refine ⟨by rw [hv2]; simp, ?_, by rw [hc2]; simp, ?_⟩
-      · intro v hv
-        simp [World.value, hv2, List.getD_eq_getElem?_getD, List.getElem?_append_left hv]
-      · intro c hc
-        simp [World.cfg, hc2, List.getD_eq_getElem?_getD, List.getElem?_append_left hc]
-    have hinv0 : RTInv w (w.model m) (rtNewCfgs w (w.model m)) st.1 st.2 := by
-      refine ⟨hext2.trans e0.toExt, by rw [e0.cfgs, hc2], by rw [e0.models, hm2], ?_, ok0, ?_⟩
-      · exact ⟨[], by rw [e0.nodes, hn2]; simp, by simp⟩
-      · intro n hn o ho hne
-        apply decl0 o _ hne
+      exact mem_modelValues_of_io (ctx.hcl.2.1 g hg n hn) (Or.inr (serOutputs_sub hol))) hdo
+    have e01 : VExt st.w r1.1 := e0.trans e1
+    have hn01 : r1.1.nodes = st.w.nodes := by rw [n1, n0]
+    have hinv1 : DInv w ms { st with w := r1.1 } := hinv.grow e01 hn01
+    cases hdn : deserNodes rec w false (rtKnown w ms) outer { st with w := r1.1 } r1.2 (w.graph g).nodes [] with
+    | none => simp [hdn] at hc
+    | some r2 =>
+      obtain ⟨st2, ns⟩ := r2
+      simp only [hdn, Option.some.injEq, Prod.mk.injEq] at hc
+      obtain ⟨hst', _⟩ := hc
+      obtain ⟨b2, e2⟩ := deserNodes_spec ctx hrec outer _ _ _ _ _ _ (ctx.hcl.2.1 g hg) hdn hinv1 ok1 (by
+        intro n hn o ho hne
+        apply decl1 o _ hne
         simp only [List.mem_flatten, List.mem_map]
-        exact ⟨_, ⟨n, hn, rfl⟩, ho⟩
-    have hloop := deserNodes_inv (w := w) (ms := w.model m)
-      (known := rtKnown w (w.model m)) (newCfgs := rtNewCfgs w (w.model m))
-      (serDevOf w (w.model m)) hU h hmo
-      (by intro n; unfold serDevOf; split
-          · exact List.Sublist.refl _
-          · exact List.nil_sublist _)
-      hnamed
-      (by intro n hn nc hnc
-          unfold serDevOf at hnc
-          split at hnc
-          · rename_i hir
-            simp only [rtRegs, hir, if_true]
-            exact (hmo.1 n hn).2 nc hnc
-          · cases hnc)
-      (fun wd hc => known_ok w (w.model m) hmo wd hc)
-      (w.model m).nodes st.1 st.2 [] (fun _ hn => hn) hinv0 (by simp)
-    obtain ⟨scf, hinv, hns⟩ := hloop
-    have hst : (st.1, st.2) = st := rfl
-    rw [hst] at hinv hns
-    generalize deserNodes w (rtKnown w (w.model m)) st
-      ((w.model m).nodes.map (rtPair w (serDevOf w (w.model m)))) [] = r at hinv hns hd
-    generalize hnm : ({ inputs := rtNewIns w (w.model m), nodes := r.2, cfgs := rtNewCfgs w (w.model m), irVersion := (w.model m).irVersion } : ModelS) = newm at hd
-    have hnm1 : newm.nodes = r.2 := by rw [← hnm]
-    have hnm2 : newm.cfgs = rtNewCfgs w (w.model m) := by rw [← hnm]
-    clear hnm
-    subst hd
-    obtain ⟨extra, hex, hok⟩ := hinv.nodes
-    have hextf : Ext w (rtFinish r.1 newm) := hinv.ext.trans (Ext.of_eq rfl rfl)
-    have hnodef : ∀ n, World.node (rtFinish r.1 newm) n = r.1.node n := fun _ => rfl
-    constructor
-    · intro nd hnd
-      have hnd' : nd ∈ r.1.nodes := hnd
-      rw [hex, List.mem_append] at hnd'
-      rcases hnd' with h1 | h1
-      · exact (h.1 nd h1).ext hextf
-      · exact (hok nd h1).1.ext (Ext.of_eq rfl rfl)
-    · intro ms' hms'
-      have hms'' : ms' ∈ r.1.models ++ [newm] := hms'
-      rw [hinv.models, List.mem_append, List.mem_singleton] at hms''
-      rcases hms'' with h1 | h1
-      · refine (h.2 ms' h1).ext hextf ?_ ?_
-        · show w.nodes.length ≤ r.1.nodes.length
-          rw [hex]; simp
-        · intro n _ hn nc hnc
-          have : World.node (rtFinish r.1 newm) n = w.node n := by
-            rw [hnodef]
-            simp [World.node, hex, List.getD_eq_getElem?_getD, List.getElem?_append_left hn]
-          rw [this] at hnc
-          exact ⟨nc, hnc, rfl⟩
-      · subst h1
-        have hregsub : ∀ c ∈ rtRegs (w.model m), c ∈ (w.model m).cfgs := by
-          intro c hc; unfold rtRegs at hc; split at hc
-          · exact hc
-          · cases hc
-        have hcfgnew : ∀ i, i < (rtRegs (w.model m)).length →
-            World.cfg (rtFinish r.1 ms') (w.cfgs.length + i) = w.cfg ((rtRegs (w.model m))[i]?.getD 0) := by
-          intro i hi
-          have : World.cfg (rtFinish r.1 ms') (w.cfgs.length + i)
-              = (r.1.cfgs[w.cfgs.length + i]?).getD {} := by
-            simp [World.cfg, rtFinish, List.getD_eq_getElem?_getD]
-          rw [this, hinv.cfgs, List.getElem?_append_right (Nat.le_add_right _ _)]
-          simp [hi]
-        refine ⟨?_, ?_, ?_⟩
-        · intro n hn
-          rw [hnm1] at hn
-          obtain ⟨hge, hlt⟩ := hns n hn
-          refine ⟨hlt, ?_⟩
-          intro nc hnc
-          have hmem : World.node (rtFinish r.1 ms') n ∈ extra := by
-            have : World.node (rtFinish r.1 ms') n = r.1.nodes[n] := by
-              rw [hnodef]; simp [World.node, List.getD_eq_getElem?_getD, hlt]
-            rw [this]
-            have hlt' : n < (w.nodes ++ extra).length := by rw [← hex]; exact hlt
-            have : r.1.nodes[n] = (w.nodes ++ extra)[n] := by simp [hex]
-            rw [this, List.getElem_append_right hge]
-            exact List.getElem_mem _
-          rw [hnm2]
-          exact (hok _ hmem).2 nc hnc
-        · intro c hc
-          rw [hnm2] at hc
-          have hc' : c ∈ List.range' w.cfgs.length (rtRegs (w.model m)).length := hc
-          rw [List.mem_range'_1] at hc'
-          obtain ⟨hc1, hc2⟩ := hc'
-          have hi0 : c - w.cfgs.length < (rtRegs (w.model m)).length := Nat.sub_lt_left_of_lt_add hc1 hc2
-          obtain ⟨i, hi, rfl⟩ : ∃ i, i < (rtRegs (w.model m)).length ∧ c = w.cfgs.length + i :=
-            ⟨c - w.cfgs.length, hi0, (Nat.add_sub_cancel' hc1).symm⟩
-          refine ⟨?_, ?_⟩
-          · show w.cfgs.length + i < r.1.cfgs.length
-            rw [hinv.cfgs]; simp only [List.length_append, List.length_map]; omega
-          · rw [hcfgnew i hi]
-            have : (rtRegs (w.model m))[i]?.getD 0 ∈ rtRegs (w.model m) := by
-              simp [hi]
-            exact (hmo.2.1 _ (hregsub _ this)).2
-        · rw [hnm2]
-          have : (rtNewCfgs w (w.model m)).map (fun c => (World.cfg (rtFinish r.1 ms') c).name)
-              = (rtRegs (w.model m)).map (fun c => (w.cfg c).name) := by
-            apply List.ext_getElem
-            · simp [rtNewCfgs]
-            · intro i h1 h2
-              simp only [rtNewCfgs, List.length_map, List.length_range'] at h1
-              simp only [rtNewCfgs, List.getElem_map, List.getElem_range', Nat.one_mul]
-              rw [hcfgnew i h1]
-              simp [h1]
-          rw [this]
-          unfold rtRegs; split
-          · exact hmo.2.2
-          · simp
+        exact ⟨_, ⟨n, hn, rfl⟩, ho⟩)
+      have e2' : VExt r1.1 st2.w := e2
+      subst hst'
+      exact ⟨b2.of_eq rfl rfl rfl rfl rfl rfl, (e01.trans e2').trans (VExt.of_eq rfl rfl rfl rfl)⟩
 
-theorem DevOK_roundTrip {w : World} (h : DevOK w) (m : MId) (hU : NamesUnique w (w.model m)) :
+theorem deserGraphF_spec {w : World} {ms : ModelS} (ctx : RTCtx w ms) :
+    ∀ (f : Nat), RecSpecD w ms (deserGraphF w false (rtKnown w ms) f) := by
+  intro f
+  induction f with
+  | zero => intro st outer g st' g' _ hc; simp [deserGraphF] at hc
+  | succ f ih =>
+    intro st outer g st' g' hg hc
+    simp only [deserGraphF] at hc
+    exact deserGraphBody_spec ctx ih st outer g st' g' hg hc
+
+/-! ### which source nodes are visited -/
+
+def SrcSpec (w : World) (f : Nat) (rec : DSt → Scope → GId → Option (DSt × GId)) : Prop :=
+  ∀ st outer g st' g', rec st outer g = some (st', g') → st'.srcNodes = st.srcNodes ++ allNodesF w f g
+
+theorem deserSubgraphs_src {w : World} {f : Nat} {rec : DSt → Scope → GId → Option (DSt × GId)}
+    (hrec : SrcSpec w f rec) (outer : Scope) : ∀ (gs : List GId) (st st' : DSt) (subs : List GId),
+    deserSubgraphs rec outer st gs = some (st', subs) →
+    st'.srcNodes = st.srcNodes ++ (gs.map (allNodesF w f)).flatten := by
+  intro gs
+  induction gs with
+  | nil =>
+    intro st st' subs hc
+    simp only [deserSubgraphs, Option.some.injEq, Prod.mk.injEq] at hc
+    obtain ⟨rfl, _⟩ := hc; simp
+  | cons g rest ih =>
+    intro st st' subs hc
+    simp only [deserSubgraphs] at hc
+    cases hr : rec st outer g with
+    | none => simp [hr] at hc
+    | some r =>
+      obtain ⟨st1, g1⟩ := r
+      simp only [hr] at hc
+      cases hr2 : deserSubgraphs rec outer st1 rest with
+      | none => simp [hr2] at hc
+      | some r2 =>
+        obtain ⟨st2, subs2⟩ := r2
+        simp only [hr2, Option.map_some, Option.some.injEq, Prod.mk.injEq] at hc
+        obtain ⟨rfl, _⟩ := hc
+        rw [ih st1 st2 subs2 hr2, hrec st outer g st1 g1 hr]
+        simp
+
+theorem deserNode_src {w : World} {f : Nat} {rec : DSt → Scope → GId → Option (DSt × GId)}
+    (hrec : SrcSpec w f rec) {gate : Bool} {known : List (String × CId)} {outer : Scope} {st st' : DSt}
+    {cur cur1 : Scope} {n k : NId}
+    (hc : deserNode rec w gate known outer st cur n = some (st', cur1, k)) :
+    st'.srcNodes = st.srcNodes ++ (((w.node n).subgraphs.map (allNodesF w f)).flatten ++ [n]) := by
+  unfold deserNode at hc
+  simp only at hc
+  split at hc
+  · cases hc
+  · rename_i st4 subs hsub
+    simp only [Option.some.injEq, Prod.mk.injEq] at hc
+    obtain ⟨rfl, _, _⟩ := hc
+    have := deserSubgraphs_src hrec _ _ _ _ _ hsub
+    simp only [this, List.append_assoc]
+
+theorem deserNodes_src {w : World} {f : Nat} {rec : DSt → Scope → GId → Option (DSt × GId)}
+    (hrec : SrcSpec w f rec) {gate : Bool} {known : List (String × CId)} (outer : Scope) :
+    ∀ (ns : List NId) (st : DSt) (cur : Scope) (acc : List NId) (st' : DSt) (res : List NId),
+    deserNodes rec w gate known outer st cur ns acc = some (st', res) →
+    st'.srcNodes = st.srcNodes ++
+      (ns.map (fun n => ((w.node n).subgraphs.map (allNodesF w f)).flatten ++ [n])).flatten := by
+  intro ns
+  induction ns with
+  | nil =>
+    intro st cur acc st' res hc
+    simp only [deserNodes, Option.some.injEq, Prod.mk.injEq] at hc
+    obtain ⟨rfl, _⟩ := hc; simp
+  | cons n rest ih =>
+    intro st cur acc st' res hc
+    simp only [deserNodes] at hc
+    cases hdn : deserNode rec w gate known outer st cur n with
+    | none => simp [hdn] at hc
+    | some r =>
+      obtain ⟨st1, cur1, k⟩ := r
+      simp only [hdn] at hc
+      rw [ih st1 cur1 _ st' res hc, deserNode_src hrec hdn]
+      simp
+
+theorem deserGraphBody_src {w : World} {f : Nat} {rec : DSt → Scope → GId → Option (DSt × GId)}
+    (hrec : SrcSpec w f rec) (gate : Bool) (known : List (String × CId)) :
+    SrcSpec w (f + 1) (deserGraphBody rec w gate known) := by
+  intro st outer g st' g' hc
+  unfold deserGraphBody at hc
+  simp only at hc
+  split at hc
+  · cases hc
+  · split at hc
+    · cases hc
+    · rename_i r1 _ st2 ns hdn
+      simp only [Option.some.injEq, Prod.mk.injEq] at hc
+      obtain ⟨rfl, _⟩ := hc
+      have := deserNodes_src hrec outer _ _ _ _ _ _ hdn
+      simp only [this, allNodesF]
+
+theorem deserGraphF_src (w : World) (gate : Bool) (known : List (String × CId)) :
+    ∀ (f : Nat), SrcSpec w f (deserGraphF w gate known f) := by
+  intro f
+  induction f with
+  | zero => intro st outer g st' g' hc; simp [deserGraphF] at hc
+  | succ f ih =>
+    intro st outer g st' g' hc
+    simp only [deserGraphF] at hc
+    exact deserGraphBody_src ih gate known st outer g st' g' hc
+
+/-- what the serialized device fields say when serialization succeeds at IR version >= 11 -/
+theorem serModelDev_named {w : World} {m : MId} {protos : List (List PCfg)}
+    (h : serModelDev w m = some protos) (hir : 11 ≤ (w.model m).irVersion) :
+    ∀ n ∈ (w.model m).nodes, ∀ nc ∈ (w.node n).dev, ∀ s ∈ nc.specs, (w.value s.value).name ≠ "" := by
+  intro n hn nc hnc s hs
+  unfold serModelDev at h
+  obtain ⟨a, ha⟩ := optAll_all h (serNodeDev w (nodeGated w (w.model m) n) (w.node n))
+    (List.mem_map_of_mem (f := fun n => serNodeDev w (nodeGated w (w.model m) n) (w.node n)) hn)
+  unfold serNodeDev at ha
+  rw [nodeGated_false hir] at ha
+  simp only [Bool.false_eq_true, if_false] at ha
+  obtain ⟨p, hp⟩ := optAll_all ha (serCfg w nc) (List.mem_map_of_mem hnc)
+  unfold serCfg at hp
+  split at hp
+  · cases hp
+  · cases ho : optAll (nc.specs.map (serSpec w)) with
+    | none => simp [ho] at hp
+    | some sp =>
+      obtain ⟨q, hq⟩ := optAll_all ho (serSpec w s) (List.mem_map_of_mem hs)
+      unfold serSpec at hq
+      split at hq
+      · cases hq
+      · assumption
+
+/-- the result of a successful `deserModel`, with everything the theorems need -/
+theorem deserModel_spec {w : World} (h : DevOK w) (m : MId) (hir : 11 ≤ (w.model m).irVersion)
+    (hcl : Closed w (w.model m)) (hU : NamesUnique w (w.model m))
+    {protos : List (List PCfg)} (hser : serModelDev w m = some protos) {w' : World}
+    (hd : deserModel w m = some w') :
+    ∃ (st : DSt) (newm : ModelS), w' = rtFinish st.w newm ∧ DInv w (w.model m) st ∧
+      newm.nodes = st.newNodes ∧ newm.cfgs = rtNewCfgs w (w.model m) ∧ newm.irVersion = (w.model m).irVersion ∧
+      st.srcNodes = allNodesF w (w.graphs.length + 1) (w.model m).graph := by
+  have ctx : RTCtx w (w.model m) := ⟨hU, h, h.model m, hcl, hir, serModelDev_named hser hir⟩
+  unfold deserModel at hd
+  simp only at hd
+  have hgate : decide ((w.model m).irVersion < 11) = false := by
+    have : ¬ (w.model m).irVersion < 11 := by omega
+    simp [this]
+  rw [hgate] at hd
+  cases hdg : deserGraphF w false (rtKnown w (w.model m)) (w.graphs.length + 1)
+      { w := rtWorld0 w (w.model m) } [] (w.model m).graph with
+  | none => simp [hdg] at hd
+  | some r =>
+    obtain ⟨st, g'⟩ := r
+    simp only [hdg, Option.some.injEq] at hd
+    have hinit : DInv w (w.model m) { w := rtWorld0 w (w.model m) } := by
+      refine ⟨?_, rfl, rfl, ⟨[], by simp [rtWorld0], by simp⟩, rfl, by simp⟩
+      refine ⟨Nat.le_refl _, fun _ _ => rfl, by simp [rtWorld0], ?_⟩
+      intro c hc
+      simp [World.cfg, rtWorld0, List.getD_eq_getElem?_getD, List.getElem?_append_left hc]
+    have hsc0 : ScopeOK w (modelValues w (w.model m)) (rtWorld0 w (w.model m)) [] :=
+      ⟨by simp, by simp, by simp, by simp⟩
+    obtain ⟨hinv, _⟩ := deserGraphF_spec ctx _ _ _ _ _ _ hcl.1 hdg hinit hsc0
+    have hsrc := deserGraphF_src w false (rtKnown w (w.model m)) _ _ _ _ _ _ hdg
+    exact ⟨st, _, hd.symm, hinv, rfl, rfl, rfl, by simpa using hsrc⟩
+
+theorem NodeRel.of_eq {w a b : World} {nd nd' : NodeS} (h : NodeRel w a nd nd')
+    (hv : b.values = a.values) (hc : b.cfgs = a.cfgs) : NodeRel w b nd nd' := by
+  have hval : ∀ x, b.value x = a.value x := by intro x; simp [World.value, hv]
+  have hcfg : ∀ x, b.cfg x = a.cfg x := by intro x; simp [World.cfg, hc]
+  refine All2.imp ?_ h
+  intro nc nc' hcr
+  refine ⟨by rw [hcfg]; exact hcr.1, hcr.2.1, All2.imp ?_ hcr.2.2⟩
+  intro s s' hs
+  exact ⟨by rw [hv]; exact hs.1, by rw [hval]; exact hs.2.1, hs.2.2⟩
+
+/-- the configuration objects of the new model are record-for-record copies, in order -/
+theorem rtFinish_cfgs {w : World} {ms : ModelS} {st : DSt} (hinv : DInv w ms st) (hir : 11 ≤ ms.irVersion)
+    (newm : ModelS) :
+    (rtNewCfgs w ms).map (rtFinish st.w newm).cfg = ms.cfgs.map w.cfg := by
+  have hregs : rtRegs ms = ms.cfgs := by simp [rtRegs, hir]
+  apply List.ext_getElem
+  · simp [rtNewCfgs, hregs]
+  · intro i h1 h2
+    simp only [rtNewCfgs, List.length_map, List.length_range', hregs] at h1
+    simp only [rtNewCfgs, List.getElem_map, List.getElem_range', Nat.one_mul]
+    have : World.cfg (rtFinish st.w newm) (w.cfgs.length + i) = (st.w.cfgs[w.cfgs.length + i]?).getD {} := by
+      simp [World.cfg, rtFinish, List.getD_eq_getElem?_getD]
+    rw [this, hinv.cfgs, List.getElem?_append_right (Nat.le_add_right _ _), hregs]
+    simp [h1]
+
+theorem DevOK_rtFinish {w : World} {ms : ModelS} (h : DevOK w) (hmo : ModelOK w ms) (hir : 11 ≤ ms.irVersion)
+    {st : DSt} (hinv : DInv w ms st) {newm : ModelS} (hnn : newm.nodes = st.newNodes)
+    (hnc : newm.cfgs = rtNewCfgs w ms) : DevOK (rtFinish st.w newm) := by
+  obtain ⟨extra, hex, hok⟩ := hinv.nodes
+  have hpp := hinv.pairs
+  have hps : st.newNodes = (st.srcNodes.zip st.newNodes).map (·.2) := by
+    rw [List.map_snd_zip (Nat.le_of_eq hinv.plen.symm)]
+  generalize st.srcNodes.zip st.newNodes = ps at hpp hps
+  have hextf : Ext w (rtFinish st.w newm) := hinv.ext.trans (Ext.of_eq rfl rfl)
+  have hnodef : ∀ n, World.node (rtFinish st.w newm) n = st.w.node n := fun _ => rfl
+  have hregs : rtRegs ms = ms.cfgs := by simp [rtRegs, hir]
+  have hcopies := rtFinish_cfgs hinv hir newm
+  constructor
+  · intro nd hnd
+    have hnd' : nd ∈ st.w.nodes := hnd
+    rw [hex, List.mem_append] at hnd'
+    rcases hnd' with h1 | h1
+    · exact (h.1 nd h1).ext hextf
+    · exact (hok nd h1).1.ext (Ext.of_eq rfl rfl)
+  · intro ms' hms'
+    have hms'' : ms' ∈ st.w.models ++ [newm] := hms'
+    rw [hinv.models, List.mem_append, List.mem_singleton] at hms''
+    rcases hms'' with h1 | h1
+    · refine (h.2 ms' h1).ext hextf ?_ ?_
+      · show w.nodes.length ≤ st.w.nodes.length
+        rw [hex]; simp
+      · intro n _ hn nc hnc
+        have : World.node (rtFinish st.w newm) n = w.node n := by
+          rw [hnodef]
+          simp [World.node, hex, List.getD_eq_getElem?_getD, List.getElem?_append_left hn]
+        rw [this] at hnc
+        exact ⟨nc, hnc, rfl⟩
+    · subst h1
+      refine ⟨?_, ?_, ?_⟩
+      · intro n hn
+        rw [hnn, hps] at hn
+        simp only [List.mem_map] at hn
+        obtain ⟨p, hp, rfl⟩ := hn
+        obtain ⟨_, hge, hlt, _⟩ := hpp p hp
+        refine ⟨hlt, ?_⟩
+        intro nc hncm
+        have hmem : World.node (rtFinish st.w ms') p.2 ∈ extra := by
+          have : World.node (rtFinish st.w ms') p.2 = st.w.nodes[p.2] := by
+            rw [hnodef]; simp [World.node, List.getD_eq_getElem?_getD, hlt]
+          rw [this]
+          have hlt' : p.2 < (w.nodes ++ extra).length := by rw [← hex]; exact hlt
+          have : st.w.nodes[p.2] = (w.nodes ++ extra)[p.2] := by simp [hex]
+          rw [this, List.getElem_append_right hge]
+          exact List.getElem_mem _
+        rw [hnc]
+        exact (hok _ hmem).2 nc hncm
+      · intro c hc
+        rw [hnc] at hc
+        have hc' : c ∈ List.range' w.cfgs.length (rtRegs ms).length := hc
+        rw [List.mem_range'_1] at hc'
+        obtain ⟨hc1, hc2⟩ := hc'
+        have hi0 : c - w.cfgs.length < (rtRegs ms).length := Nat.sub_lt_left_of_lt_add hc1 hc2
+        obtain ⟨i, hi, rfl⟩ : ∃ i, i < (rtRegs ms).length ∧ c = w.cfgs.length + i :=
+          ⟨c - w.cfgs.length, hi0, (Nat.add_sub_cancel' hc1).symm⟩
+        refine ⟨?_, ?_⟩
+        · show w.cfgs.length + i < st.w.cfgs.length
+          rw [hinv.cfgs]; simp only [List.length_append, List.length_map]; omega
+        · -- the i-th copy has the name of the i-th registered configuration
+          have hi' : i < ms.cfgs.length := by rw [← hregs]; exact hi
+          have hlen1 : i < ((rtNewCfgs w ms).map (rtFinish st.w ms').cfg).length := by simp [rtNewCfgs, hi]
+          have hget : ((rtNewCfgs w ms).map (rtFinish st.w ms').cfg)[i] = (ms.cfgs.map w.cfg)[i]'(by simp [hi']) := by
+            simp only [hcopies]
+          simp only [rtNewCfgs, List.getElem_map, List.getElem_range', Nat.one_mul] at hget
+          rw [hget]
+          exact (hmo.2.1 _ (List.getElem_mem hi')).2
+      · rw [hnc]
+        have : (rtNewCfgs w ms).map (fun c => (World.cfg (rtFinish st.w ms') c).name)
+            = (ms.cfgs.map w.cfg).map (·.name) := by
+          rw [← hcopies, List.map_map]; rfl
+        rw [this, List.map_map]
+        exact hmo.2.2
+
+theorem DevOK_roundTrip {w : World} (h : DevOK w) (m : MId) (hpre : Pre w (.roundTrip m)) :
     DevOK (roundTrip w m).1 := by
+  obtain ⟨hir, hcl, hU⟩ := hpre
   unfold roundTrip
   cases hser : serModelDev w m with
   | none => exact h
   | some protos =>
     simp only
-    cases hd : deserModel w m protos with
+    cases hd : deserModel w m with
     | none => exact h
-    | some w' => exact deserModel_ok h m hU hser hd
+    | some w' =>
+      obtain ⟨st, newm, rfl, hinv, hnn, hnc, _, _⟩ := deserModel_spec h m hir hcl hU hser hd
+      exact DevOK_rtFinish h (h.model m) hir hinv hnn hnc
+
+/-- the round trip reproduces every annotation: see `C19_roundtrip_faithful` -/
+theorem roundTrip_faithful {w : World} (h : DevOK w) (m : MId) (hpre : Pre w (.roundTrip m))
+    (hok : (roundTrip w m).2 = .ok) :
+    (roundTrip w m).1.models.length = w.models.length + 1 ∧
+    (((roundTrip w m).1.model w.models.length).cfgs.map (roundTrip w m).1.cfg = (w.model m).cfgs.map w.cfg) ∧
+    ((roundTrip w m).1.model w.models.length).irVersion = (w.model m).irVersion ∧
+    ∃ ps : List (NId × NId), ((roundTrip w m).1.model w.models.length).nodes = ps.map (·.2) ∧
+      (∀ n ∈ (w.model m).nodes, n ∈ ps.map (·.1)) ∧
+      ∀ p ∈ ps, p.1 ∈ (w.model m).nodes ∧
+        NodeRel w (roundTrip w m).1 (w.node p.1) ((roundTrip w m).1.node p.2) := by
+  obtain ⟨hir, hcl, hU⟩ := hpre
+  unfold roundTrip at hok ⊢
+  cases hser : serModelDev w m with
+  | none => simp [hser] at hok
+  | some protos =>
+    simp only [hser] at hok ⊢
+    cases hd : deserModel w m with
+    | none => simp [hd] at hok
+    | some w' =>
+      simp only
+      obtain ⟨st, newm, rfl, hinv, hnn, hnc, hni, hsrc⟩ := deserModel_spec h m hir hcl hU hser hd
+      have hmodel : World.model (rtFinish st.w newm) w.models.length = newm := by
+        simp [World.model, rtFinish, hinv.models, List.getD_eq_getElem?_getD]
+      rw [hmodel]
+      refine ⟨by simp [rtFinish, hinv.models], ?_, hni, st.srcNodes.zip st.newNodes, ?_, ?_, ?_⟩
+      · rw [hnc]; exact rtFinish_cfgs hinv hir newm
+      · rw [hnn, List.map_snd_zip (Nat.le_of_eq hinv.plen.symm)]
+      · intro n hn
+        rw [List.map_fst_zip (Nat.le_of_eq hinv.plen), hsrc]
+        exact hcl.2.2.2 n hn
+      · intro p hp
+        obtain ⟨a, _, _, d⟩ := hinv.pairs p hp
+        exact ⟨a, d.of_eq rfl rfl⟩
 
 end IrVerif.Device
